@@ -51,7 +51,21 @@ def run_gen_half(ctx, info):
                 adef.mk_field("mode", "uint", 0, w0, conv=en),
                 adef.mk_field("last_mode", "uint", 8, 8 + w1, conv=adef.mk_direct(en["name"], True))],      # `try`: the method choice of a non-try reuse is C07's model (Enum.conv_choice)
                 byte_order=rng.choice(["LE", "BE"])))
+        # the same register name under two exclusive cfgs (legal: one of them exists per build) with DIFFERENT sizes and a
+        # field above the smaller one: each field set keeps its own declared size and byte length (seed C03-6 looked the
+        # size up by name and gave both the size of the one declared last)
+        force_dsl = False
+        if rng.random() < 0.12:
+            big, small = rng.choice([(32, 8), (16, 8), (64, 24), (128, 40), (24, 9)])
+            first, second = (big, small) if rng.random() < 0.7 else (small, big)
+            for k, (sz, cfgx) in enumerate([(first, 'feature = "twin"'), (second, 'not(feature = "twin")')]):
+                fl = [adef.mk_field("low", "uint", 0, min(sz, 8))]
+                if sz > 8:
+                    fl.append(adef.mk_field("high", rng.choice(["uint", "int"]), 8, sz))
+                d["objects"].append(adef.mk_register("Twin", 903 + k, sz, fl, byte_order=rng.choice(["LE", "BE"]), cfg=cfgx))
         syntax = rng.choice(["dsl", "dsl", "json", "yaml", "toml"])
+        if syntax != "dsl" and any(o["name"] == "Twin" for o in d["objects"]):
+            syntax = "dsl"          # a manifest is a map: it cannot hold two entries with one key
         if syntax != "dsl":
             for o, _ in adef.walk(d["objects"]):
                 if o["kind"] == "register" and isinstance(o.get("reset_value"), int) and o["reset_value"] >= 2 ** 63:
@@ -104,7 +118,7 @@ def run_gen_half(ctx, info):
         want = model.get(c["id"])
         for fs in facts["field_sets"]:
             for a in fs["getters"] + fs["setters"]:
-                shapes.add((fs["size_bits"], a["start"] % 8, a["end"] % 8, a["carrier"], a["func"], a["byte_order"]))
+                shapes.add((fs["size_bits"], (a["start"] or 0) % 8, (a["end"] or 0) % 8, a["carrier"], a["func"], a["byte_order"]))
         if got != want:
             diffs.append((c, "emitted field-set facts differ from the model", got, want))
     if diffs:
